@@ -53,7 +53,11 @@ Verdict(r) ==
       Dir(x, c) == IF x.desc THEN 0 - c ELSE c
       \* (ORDER BY an aggregate that is not selected: the rows name their groups, the judge computes the sums)
       HSum(i) == SumOver(r, G(got[i]), "size", FALSE)
-      RowCmp(i, k) == IF o[1].by = "hsum" THEN Dir(o[1], Cmp(HSum(i), HSum(k))) ELSE
+      \* (ORDER BY a key that is not selected: rows i, k are in order if they can stand for two groups whose keys are in that order)
+      HiddenKey == Len(o) = 1 /\ o[1].by = "key" /\ o[1].i > sh
+      HKeyCmp(i, k) == IF \E t \in M[i], u \in M[k] : t # u /\ Dir(o[1], CellCmp(t[o[1].i], u[o[1].i], Numeric(o[1]))) <= 0 THEN 0 - 1 ELSE 1
+      RowCmp(i, k) == IF HiddenKey THEN HKeyCmp(i, k) ELSE
+                      IF o[1].by = "hsum" THEN Dir(o[1], Cmp(HSum(i), HSum(k))) ELSE
                       LET c1 == Dir(o[1], CellCmp(rows[i][Pos(o[1])], rows[k][Pos(o[1])], Numeric(o[1]))) IN
                       IF c1 # 0 \/ Len(o) = 1 THEN c1 ELSE Dir(o[2], CellCmp(rows[i][Pos(o[2])], rows[k][Pos(o[2])], Numeric(o[2])))
       sorted == o = <<>> \/ \A i \in 1 .. Len(rows) - 1 : RowCmp(i, i + 1) <= 0
